@@ -16,6 +16,7 @@ mod c03;
 mod c04;
 mod c10;
 mod c16;
+mod c17;
 mod c05;
 
 use runner::Tier;
@@ -29,6 +30,7 @@ fn dispatch_replay(prop: &str, w: &serde_json::Value) -> Vec<(String, String)> {
         "C05" => c05::replay(w),
         "C10" => c10::replay(w),
         "C16" => c16::replay(w),
+        "C17" => c17::replay(w),
         _ => vec![],
     }
 }
@@ -72,6 +74,7 @@ fn main() {
         "C05" => c05::run(tier),
         "C10" => c10::run(tier),
         "C16" => c16::run(tier),
+        "C17" => c17::run(tier),
         other => {
             eprintln!("unknown property {}", other);
             2
